@@ -50,7 +50,7 @@ pub fn real_accepts(toks: &[Tok], context: &[&str]) -> Result<(bool, Vec<String>
 }
 
 // (A) accept / reject on every token sequence, (C) unambiguity of the grammar.
-fn accept_sweep(max_len: usize) -> Sweep {
+fn accept_sweep(alphabet: Vec<K>, min_len: usize, max_len: usize) -> Sweep {
     let g = Grammar::load();
     // The set of sentences up to max_len, with the index of their derivation.
     let mut sentences = Sentences::new(g.clone(), 0, max_len);
@@ -64,24 +64,27 @@ fn accept_sweep(max_len: usize) -> Sweep {
     }
     let sentences = Rc::new(RefCell::new(sentences));
     let set = Rc::new(set);
-    let seqs = Seqs::new(SYMS29, max_len);
+    let seqs = Seqs::with_min(alphabet.len(), min_len, max_len);
     let s2 = seqs.clone();
     let g2 = g.clone();
+    let alphabet = Rc::new(alphabet);
+    let alphabet2 = alphabet.clone();
+    let nsyms = alphabet.len();
     let mut buf = vec![];
     let mut reported_ambiguity = false;
     Sweep::new(
-        &format!("all token sequences of length <= {max_len} over 29 symbols"),
+        &format!("all token sequences of length {min_len}..{max_len} over {nsyms} symbols"),
         seqs.count(),
         move |idx| {
-            if idx == 0 {
-                count!("grammar_sentences", set.len());
+            if idx == seqs.count() - 1 || idx == 0 {
+                crate::infra::max_named("max.grammar_sentences", set.len() as u64);
                 if !ambiguous.is_empty() && !reported_ambiguity {
                     reported_ambiguity = true;
                     violation("grammar-ambiguous", &format!("{:?}", ambiguous[0]), "at most one derivation per sentence", "two derivations");
                 }
             }
             seqs.unrank(idx, &mut buf);
-            let ks: Vec<K> = buf.iter().map(|i| sym29(*i)).collect();
+            let ks: Vec<K> = buf.iter().map(|i| alphabet[*i]).collect();
             count!("evaluations");
             let key = pack(&ks);
             let sentence = set.get(&key).copied();
@@ -144,7 +147,7 @@ fn accept_sweep(max_len: usize) -> Sweep {
         move |idx| {
             let mut b = vec![];
             s2.unrank(idx, &mut b);
-            let toks: Vec<Tok> = b.iter().map(|i| Tok::new(sym29(*i))).collect();
+            let toks: Vec<Tok> = b.iter().map(|i| Tok::new(alphabet2[*i])).collect();
             tok::layout(&toks).0
         },
     )
@@ -253,18 +256,36 @@ pub fn slices(g: &Grammar) -> Vec<(&'static str, Grammar)> {
     ]
 }
 
+// Token-length bound per slice (the slices differ a lot in density).
+pub fn slice_bound(name: &str, tier: Tier) -> usize {
+    match name {
+        "applications" => tier.pick(11, 14),
+        "sums-differences-negation" | "products-quotients-negation" => tier.pick(13, 14),
+        "mixed-arithmetic" => tier.pick(11, 13),
+        "binders" => tier.pick(11, 15),
+        _ => tier.pick(15, 19),
+    }
+}
+
 impl Prop for C07 {
     fn id(&self) -> &'static str {
         "C07"
     }
     fn sweeps(&self, tier: Tier) -> Vec<Sweep> {
         let g = Grammar::load();
-        let mut v = vec![accept_sweep(tier.pick(5, 6))];
+        let all29: Vec<K> = (0..SYMS29).map(sym29).collect();
+        let mut class21 = class_alphabet();
+        class21.push(K::LineBreak);
+        let mut v = match tier {
+            Tier::Quick => vec![accept_sweep(all29, 0, 4), accept_sweep(class21, 5, 5)],
+            Tier::Thorough => vec![accept_sweep(all29, 0, 5), accept_sweep(class21, 6, 6)],
+        };
         let full: Vec<K> = ALL28.to_vec();
         v.push(tree_sweep("derivation trees, full alphabet", g.clone(), 1, tier.pick(6, 7)));
         v.push(tree_sweep("derivation trees, class alphabet", g.restrict(&class_alphabet(), &[]), tier.pick(7, 8), tier.pick(8, 9)));
         for (name, sg) in slices(&g) {
-            v.push(tree_sweep(&format!("derivation trees, slice {name}"), sg, tier.pick(7, 9), tier.pick(11, 13)));
+            let max = slice_bound(name, tier);
+            v.push(tree_sweep(&format!("derivation trees, slice {name}"), sg, 7, max));
         }
         let _ = full;
         v
@@ -272,7 +293,7 @@ impl Prop for C07 {
     fn evidence(&self, tier: Tier) -> EvidenceSpec {
         EvidenceSpec {
             level: "exploration",
-            rule: "(A) every token sequence up to the length bound over the 28 token kinds plus the line-break terminator is parsed by the real `parse` and must be accepted (scoping permitting) iff it is in the set of sentences enumerated from /repo/grammar.y (read at run time); (C) no two derivations enumerated from the grammar yield the same sentence; (B) for every derivation tree up to the bounds (full alphabet, class-representative alphabet, and seven sub-grammar slices that reach 11-13 tokens) the real parse result must equal, node for node (variants, binder names, implicitness, literals, de Bruijn indices, hole shifts), the tree specified by the derivation with application / * / + chains folded to the left and parentheses honoured. evaluations = sequences + trees; non-trivial = accepted sentences + trees of at least 4 nodes that compared equal".to_owned(),
+            rule: "(A) every token sequence up to length 4/5 over the 28 token kinds plus the line-break terminator, and of length 5/6 over a 21-symbol class alphabet, is parsed by the real `parse` and must be accepted (scoping permitting) iff it is in the set of sentences enumerated from /repo/grammar.y (read at run time); (C) no two derivations enumerated from the grammar yield the same sentence; (B) for every derivation tree up to the bounds (full alphabet, class-representative alphabet, and eight sub-grammar slices that reach 12-19 tokens) the real parse result must equal, node for node (variants, binder names, implicitness, literals, de Bruijn indices, hole shifts), the tree specified by the derivation with application / * / + chains folded to the left and parentheses honoured. evaluations = sequences + trees; non-trivial = accepted sentences + trees of at least 4 nodes that compared equal".to_owned(),
             assumptions: vec![
                 "the mapping production -> syntax node and the re-association rule are transcribed from the header comment of grammar.y and the property text (engine/src/model/surface.rs)".to_owned(),
                 "a parse result consisting solely of scoping / definition-order diagnostics counts as grammatical acceptance".to_owned(),
@@ -284,7 +305,7 @@ impl Prop for C07 {
             transitions: None,
             traces: None,
             exhaustive: true,
-            bounds: json!({"token_sequences_max_len": tier.pick(5, 6), "trees_full_alphabet_max_tokens": tier.pick(6, 7), "trees_class_alphabet_max_tokens": tier.pick(8, 9), "trees_slices_max_tokens": tier.pick(11, 13)}),
+            bounds: json!({"token_sequences": tier.pick("<= 4 over 29 symbols, 5 over 21", "<= 5 over 29 symbols, 6 over 21"), "trees_full_alphabet_max_tokens": tier.pick(6, 7), "trees_class_alphabet_max_tokens": tier.pick(8, 9), "trees_slices_max_tokens": "12-15 (quick) / 13-19 (thorough), per slice"}),
             minimums: vec![("accepted_sentences", 10_000), ("rejected_nonsentences", 1_000_000), ("trees_equal", 100_000), ("oracle_self_checks", 1000)],
         }
     }
